@@ -20,6 +20,8 @@ Deciding step: complete enumeration of declared finite products on the real impo
      distance);
 * Et/Ed (thorough only) the clock axes (11 departures x 12 arrivals) on the DST-change ranges
      and the calendar axes (16 ranges x 9 weekday sets) at full resolution;
+* R  (same object) every sequence of up to 3 rows on ONE directed route and its reverse that
+     differ only in the stated distance (plausible / other plausible / implausible / not stated);
 * M  "same object" histories: every sequence of up to 3 rows from a 7-row alphabet added
      to ONE database (shared airport cache, line-keyed warnings, flight ids), also through
      the file converter.
@@ -112,6 +114,8 @@ def stated_miles(o, d, mode):
         return 1
     if mode.startswith('x'):
         return int(round(ex * float(mode[1:])))
+    if mode.startswith('+'):
+        return ex + int(mode[1:])
     raise HarnessError(f'unknown distance mode {mode}')
 
 
@@ -151,11 +155,14 @@ RANGES_Q = [
     ['20181229', '20190103'],  # explicit dates outside the data year
     ['20191230', '20200102'],
     ['20190110', '20190105'],  # reversed: nothing
+    ['20181027', '99999999'],  # open end, explicit start in the year BEFORE the data year (carried-over season)
+    ['00000000', '20200105'],  # open start, explicit end in the year AFTER the data year
 ]
+LEAP_RANGE = ['20200227', '20200302']  # leap day of another year
 RANGES_T = RANGES_Q + [
     ['99999999', '20190110'],  # the other indeterminate marker at the other end
     ['20191220', '00000000'],
-    ['20200227', '20200302'],  # leap day of another year
+    LEAP_RANGE,
     ['00000000', '20181231'],  # open start, end before the data year: nothing
     ['20200101', '99999999'],  # open end, start after the data year: nothing
     ['20190101', '20191231'],  # explicit whole year
@@ -192,6 +199,21 @@ M_ALPHABET = {
     'O': dict(o='DEN', d='PHX', efffrom='00000000', effto='99999999', days='1'),
 }
 
+# Rows on ONE directed route (and its reverse) that differ only in the stated distance: the decision for a
+# row must not depend on what was decided for an earlier row of the same route.  Routes are chosen so that
+# the open distance-check finding does not change any of these decisions (both longitudes within +-90 deg
+# and the mirror-point distance close to the true one), hence nothing here can be attributed to it.
+R_ROUTES_Q = [['JFK', 'BOS']]
+R_ROUTES_T = R_ROUTES_Q + [['SXF', 'TXL'], ['DCG', 'DJH']]
+R_ALPHABET = {
+    'p': ('fwd', 'exact'),  # plausible
+    'q': ('fwd', 'x1.05'),  # plausible, other stated value
+    'i': ('fwd', '+200'),  # implausible
+    'z': ('fwd', 'zero'),  # not stated
+    'P': ('rev', 'exact'),
+    'I': ('rev', '+200'),
+}
+
 
 def sublattices(tier, seed):
     T = tier == 'thorough'
@@ -212,7 +234,7 @@ def sublattices(tier, seed):
     })  # fmt: skip
     if T:
         # the clock axes at full resolution on the ranges that contain a DST change
-        t_ranges = [RANGES_Q[0], RANGES_Q[1], RANGES_Q[2], RANGES_Q[3], RANGES_T[12]]
+        t_ranges = [RANGES_Q[0], RANGES_Q[1], RANGES_Q[2], RANGES_Q[3], LEAP_RANGE]
         cases = []
         for p, r, dp, ar in itertools.product(pairs, t_ranges, deps, arrs):
             row = make_row(p[0], p[1], efffrom=r[0], effto=r[1], days='1234567', deptim=dp, arrtim=ar[0], arrday=ar[1])
@@ -235,17 +257,24 @@ def sublattices(tier, seed):
 
     # ---- Y
     y_years = [2019, 2020, 2021]
-    y_ranges = [['00000000', '99999999'], ['00000000', '0301'], ['0227', '99999999'], ['0227', '0301']]
+    # MMDD = in the data year, P.. = in the year before it, N.. = in the year after it: an open end must
+    # resolve against the DATA year whatever year the explicit end lies in
+    y_ranges = [
+        ['00000000', '99999999'], ['00000000', '0301'], ['0227', '99999999'], ['0227', '0301'],
+        ['P1027', '99999999'], ['00000000', 'N0105'], ['N0101', '99999999'], ['00000000', 'P1231'],
+    ]  # fmt: skip
     y_days = ['1234567', '4', '     67']
     y_pairs = [['DEN', 'PHX'], ['LHR', 'LAX']] + ([['JFK', 'BOS'], ['LGP', 'LAX']] if T else [])
     cases = []
     for y, r, dy, p in itertools.product(y_years, y_ranges, y_days, y_pairs):
-        a = r[0] if len(r[0]) == 8 else f'{y}{r[0]}'
-        b = r[1] if len(r[1]) == 8 else f'{y}{r[1]}'
+        a, b = (
+            t if len(t) == 8 else f'{y - 1}{t[1:]}' if t[0] == 'P' else f'{y + 1}{t[1:]}' if t[0] == 'N' else f'{y}{t}'
+            for t in r
+        )
         cases.append({'sub': 'Y', 'year': y, 'via': 'add', 'rows': [make_row(p[0], p[1], efffrom=a, effto=b, days=dy)]})
     subs.append({
         'name': 'Y: data year x open-ended / leap-day range x weekdays x pair',
-        'axes': {'year': y_years, 'range(MMDD relative to year)': y_ranges, 'days': y_days, 'pair': y_pairs},
+        'axes': {'year': y_years, 'range(MMDD in data year, P=previous, N=next)': y_ranges, 'days': y_days, 'pair': y_pairs},
         'cases': cases,
     })  # fmt: skip
 
@@ -297,6 +326,25 @@ def sublattices(tier, seed):
     subs.append({
         'name': 'M: every row sequence up to length 3 on ONE database (add) / up to %d through convert_oag_data' % (3 if T else 2),
         'axes': {'row': {k: str(v) for k, v in M_ALPHABET.items()}, 'length': [1, 2, 3], 'route': ['add', 'file']},
+        'cases': cases,
+    })  # fmt: skip
+
+    # ---- R
+    routes = R_ROUTES_T if T else R_ROUTES_Q
+    letters = list(R_ALPHABET)
+    cases = []
+    for (o, d), (via, maxlen) in itertools.product(routes, (('add', 3), ('file', 3 if T else 2))):
+        for n in range(1, maxlen + 1):
+            for seq in itertools.product(letters, repeat=n):
+                rows = []
+                for i, c in enumerate(seq):
+                    direction, mode = R_ALPHABET[c]
+                    a, b = (o, d) if direction == 'fwd' else (d, o)
+                    rows.append(make_row(a, b, dist=mode, fltno=str(101 + i)))
+                cases.append({'sub': 'R', 'year': 2019, 'via': via, 'seq': ''.join(seq), 'rows': rows})
+    subs.append({
+        'name': 'R: every sequence up to length 3 of rows on one route with different stated distances, ONE database',
+        'axes': {'route': routes, 'row': {k: list(v) for k, v in R_ALPHABET.items()}, 'length': [1, 2, 3], 'import route': ['add', 'file']},
         'cases': cases,
     })  # fmt: skip
     return subs
